@@ -20,7 +20,9 @@ RULE = (
     "exactly one single strand / hairpin / loop strand; every Strand's sequence/structure equals the slice of the "
     "sequence / dot-bracket. Nothing more is demanded (empty-interior single strands are allowed). Before the elements are "
     "asked, one of 9 histories of read-only queries (paired() iterated partly / fully / 5'->3' only, text, fcfs, "
-    "dot_bracket) is run on the same object, chosen by a fixed function of the case. Non-trivial: "
+    "dot_bracket) is run on the same object, chosen by a fixed function of the case; after the first answer one of 7 "
+    "histories of later queries (explicit conversion without / with a solver, fcfs, removals) runs and the "
+    "elements and the dot-bracket are read again together - that pair is judged. Non-trivial: "
     "structure with a multiloop-capable branching (>=3 stems), a one-nucleotide bulge, a length-1 stem or a "
     "crossing; distinct = distinct (sequence, pair set). Also the motif_extractor command line on BPSEQ / dot-bracket files "
     "with every combination of --remove-isolated / --remove-pseudoknots: printed structure == expected reduced "
@@ -46,6 +48,21 @@ PRE_QUERIES = [(), (), ("any-paired",), ("list-paired",), ("list-paired-5to3",),
                ("text", "list-paired", "dot-bracket"), ("dot-bracket", "any-paired")]
 
 
+def _convert_cbc(b):
+    import pulp
+
+    return b.convert_to_dot_bracket(pulp.PULP_CBC_CMD(msg=False))
+
+
+POST_QUERY_FUNCS = {
+    "convert-none": lambda b: b.convert_to_dot_bracket(None),
+    "convert-cbc": _convert_cbc,
+    "fcfs": lambda b: b.fcfs,
+    "removals": lambda b: (b.without_isolated(), b.without_pseudoknots()),
+}
+POST_QUERIES = [(), (), (), ("convert-none",), ("fcfs",), ("convert-none", "removals"), ("convert-cbc",)]
+
+
 def oracle(case) -> list:
     from rnapolis.common import BpSeq
 
@@ -67,6 +84,18 @@ def oracle(case) -> list:
     el = b.elements
     if not (isinstance(el, tuple) and len(el) == 4):
         return [D("C07:shape", f"elements returned {type(el).__name__}")]
+    # ... and queries made AFTER the elements were first asked: the elements and the dot-bracket are then read again,
+    # together, and it is that pair of answers which is judged (strand texts are slices of the object's dot-bracket)
+    later = POST_QUERIES[(n * 17 + len(pairs) * 5 + sum(j for _, j in pairs)) % len(POST_QUERIES)]
+    if n > 150:
+        later = tuple(q for q in later if q != "convert-cbc")  # a second MILP over thousands of nucleotides: too slow
+    for q in later:
+        POST_QUERY_FUNCS[q](b)
+    if later:
+        first = [[str(x) for x in part] for part in el]
+        el = b.elements
+        if not (isinstance(el, tuple) and len(el) == 4) or [[str(x) for x in part] for part in el] != first:
+            return [D("C07:elements-change-after-later-queries", f"after {list(later)} the elements read differently")]
     stems, singles, hairpins, loops = el
     dbs = b.dot_bracket.structure
     out = []
